@@ -35,6 +35,9 @@ def handle : List String → Option String
   | ["pyg.getattr", obj, path, pn, real] => getattrNested obj path pn real
   | ["pyg.filesig", k, pre, recs, real] => do
     pure ((calcFileSignature (← k.toNat?) (← parseHex pre) (← parseHexList recs) real).getD "ok")
+  | ["pyg.sigeq", a, b, real] => do
+    let z : List (List Nat) → List (List Int) := fun l => l.map (fun g => g.map (fun (x : Nat) => (x : Int)))
+    pure ((cmp "sigarray_eq" Gen.sigarray_eq.untranslatable (resStr (fun (r : Bool) => if r then "1" else "0") (Gen.sigarray_eq (z (← parseNatLists a)) (z (← parseNatLists b)))) real).getD "ok")
   | ["pyg.chunks", n, size, real] => do
     pure ((chunks (← n.toInt?) (← size.toInt?) real).getD "ok")
   | ["pyg.chk", n, i, real] => do
